@@ -83,7 +83,11 @@ def check_concatenation(ctx):
                             delegated = True
             except Undecided:
                 pass
-        if not wrote and not delegated and fi.qual not in ('Field.pack_noop', 'Move.pack', 'Bkpt.pack'):
+        if not wrote and not delegated and ci.name == 'Bits':
+            # a member of a bit run merges into the shared slot; the run is emitted once, by its last
+            # member: that discipline is decided by the pair rule of Bits (C07-d, check_pairs below)
+            ctx.holds(rule, fi, '[%s] %s emits nothing itself' % (ci.name, fi.qual), 'bit-run member: emission is the last member\'s (C07-d)', fi.node.lineno, clause='2')
+        elif not wrote and not delegated and fi.qual not in ('Field.pack_noop', 'Move.pack', 'Bkpt.pack'):
             ctx.violation(rule, fi, '[%s] %s' % (ci.name, fi.qual), 'the pack strategy neither writes at the cursor nor delegates to a child pack', fi.node.lineno, clause='2')
     for t in repo.templates():
         if t.tree is None:
